@@ -3,7 +3,7 @@ CONSTANTS
   Ident = "konsole"
   Style3 = "iterm2"
   Bits = 3
-  Fams = {"P", "O", "T", "I"}
+  Fams = {"Q", "O", "T", "I"}
   WithBad = FALSE
   WithInv = FALSE
   Dyn = FALSE
